@@ -34,7 +34,7 @@ CHECKS = {
    level_text="Seeded exploration (1.2k quick / 12k thorough process lifetimes of 3-60 calls each, 4 / 32 hash seeds) from a cold interpreter (no dialect or rule module loaded), so dialect import order, metaclass side effects and first-use cache fills are part of the history; 40% of the histories replay a focus group (one reused Parser/Generator/Tokenizer configuration fed with statements that touch the same per-instance state). Every step is compared byte-for-byte with a reference table computed per call signature ALONE in its own cold child, under PYTHONHASHSEED 0 and 4242 (which must agree). Faults: ParseError/TokenError/UnsupportedError/OptimizeError in earlier steps on components reused afterwards (incl. statements cut short at a token boundary), generation aborted at a PRNG-chosen node of a reused generator, RecursionError injected at a PRNG-chosen margin, gc.collect/disable, garbage pre-allocation shifting object addresses. Words that a history adds to class-level tables of the base classes are turned into output probes (leak-probe oracle). Evidence, not proof.",
    design_ref="DESIGN.md 3.2", note="Outcomes of failing calls are the exception class, the structured ParseError.errors (description, position, context excerpts) and the message text of sqlglot's own errors; the AST-diff op is excluded as the property excludes it; references and histories share the same code, so a defect that changes every execution identically is invisible (that is C01..C14's subject, not C15's)."),
  "C19": dict(engine="threadsim", technique="deterministic thread-schedule simulation: real threads under baton passing with sys.settrace line/call events of sqlglot's own frames as pre-emption points (importlib atomic between its lock operations), cooperative lock seam, cold-start fork template; seeded strategies (random-walk gaps, PCT depth 1-3, cold-code bias, publication bias, serial), a systematic per-dialect / per-entry-point sweep in every batch, gc and starvation faults; oracles = run-alone reference, no-raise, exactly-once loading, post-run health, deadlock/step-budget liveness; recorded schedule as replay file, ddmin over switch points",
-   level_text="Seeded search over interleavings (1.2k random + 294 systematic runs quick / 14k + 621 thorough, 2-8 threads x 1-4 calls, ~0.6 G trace events per quick batch). The systematic part gives EVERY dialect two cold first-use runs scheduled by publication bias (hand over the moment a registry grows) and three write-focus contention runs on its generator plus one with a function zoo (about 520 Func classes, literal arguments differing per thread), and every small public entry point (time formats, JSON paths, identifier normalisation, table/type parsing, tokenizing, dialect settings, shared-schema lookups) twelve micro-contention runs in which one thread streams thousands of distinct arguments while two ask for popular ones. Half of the runs start from a cold interpreter (very first use of dialects, optimizer sub-modules, generator dispatch caches), half are warm with gaps of 3-1000 trace events, many of them same-call contention (all threads run one call), which exposes per-call scratch state kept at class or module level. Exactly one thread runs at a time; the simulator decides every hand-over from one PRNG value and records it, so a run is replayable from its schedule and minimisable (typical minimal schedule: 1-3 pre-emptions). Threads that would block on a lock are parked in the simulator, so lock-order deadlocks are detected as 'all live threads parked' with the stacks. Evidence, not proof; found 5 genuine defects on the pinned tree (race on the dialect registry, ABBA deadlock between the dialects import lock and importlib's module lock, Athena class usable before its module finished importing, CONNECT BY editing a class-level parser table, Dialect.classes never completing its lazy loading).",
+   level_text="Seeded search over interleavings (1.0k random + 294 systematic runs quick / 14k + 621 thorough, 2-8 threads x 1-4 calls, ~0.6 G trace events per quick batch). The systematic part gives EVERY dialect two cold first-use runs scheduled by publication bias (hand over the moment a registry grows) and three write-focus contention runs on its generator plus one with a function zoo (about 520 Func classes, literal arguments differing per thread), and every small public entry point (time formats, JSON paths, identifier normalisation, table/type parsing, tokenizing, dialect settings, shared-schema lookups) twelve micro-contention runs in which one thread streams thousands of distinct arguments while two ask for popular ones. Half of the runs start from a cold interpreter (very first use of dialects, optimizer sub-modules, generator dispatch caches), half are warm with gaps of 3-1000 trace events, many of them same-call contention (all threads run one call), which exposes per-call scratch state kept at class or module level. Exactly one thread runs at a time; the simulator decides every hand-over from one PRNG value and records it, so a run is replayable from its schedule and minimisable (typical minimal schedule: 1-3 pre-emptions). Threads that would block on a lock are parked in the simulator, so lock-order deadlocks are detected as 'all live threads parked' with the stacks. Evidence, not proof; found 5 genuine defects on the pinned tree (race on the dialect registry, ABBA deadlock between the dialects import lock and importlib's module lock, Athena class usable before its module finished importing, CONNECT BY editing a class-level parser table, Dialect.classes never completing its lazy loading).",
    design_ref="DESIGN.md 3.1", note="Pre-emption granularity is source lines / function entry with C-level operations atomic (GIL semantics); locks are stubbed by cooperative wrappers; CPython's import machinery is trusted and atomic between its lock operations; pure-Python package only."),
 }
 
